@@ -360,7 +360,7 @@ def stability_condition(f: Field, bare: bool):
 # ----------------------------------------------------------------------------------------------------------------
 # Where does a printed value come from?  Factors applied between the object's attribute and the printed text.
 PASS_METHODS = {"flatten", "ravel", "reshape", "transpose", "copy", "tolist", "items", "values", "get", "astype", "T", "squeeze", "nonzero"}
-PASS_FUNCS = {"float", "int", "zip", "enumerate", "range", "reversed", "sorted", "list", "tuple", "iter", "array", "asarray", "concatenate", "hstack", "abs"}
+PASS_FUNCS = {"len", "float", "int", "zip", "enumerate", "range", "reversed", "sorted", "list", "tuple", "iter", "array", "asarray", "concatenate", "hstack", "abs"}
 
 
 class Origin:
@@ -419,7 +419,7 @@ def trace(fld: Field, exact_names=("signs",), max_depth=8):
         if key in seen or depth > max_depth:
             return
         seen.add(key)
-        if isinstance(node, ast.Constant):
+        if isinstance(node, (ast.Constant, ast.Lambda)):
             return
         if isinstance(node, ast.Name):
             if node.id in units or node.id in exact_names:
